@@ -244,3 +244,115 @@ Proof.
   destruct (rfind_skip_m (Parser.p_str P) a); split; try discriminate; eauto.
   intros (e & H). discriminate.
 Qed.
+
+(* ------------------------------------------------------------------ find_skip *)
+
+(** where the match consumed by [Parser::find_skip(a)] = [Ok Q] started *)
+Definition match_start (Q : Parser.parser) (a : list Z) : Z := Parser.p_start Q - zlen a.
+
+(** arm [j] = [(i, a)] wins the find_skip chain on [P] with result [Q]: its call returns
+    [Ok Q] and every other call that returns Ok matched no earlier, and strictly later
+    if it is listed before *)
+Definition find_winner (P : Parser.parser) (arms : arm_list) (j i : nat) (a : list Z)
+           (Q : Parser.parser) : Prop :=
+  nth_error arms j = Some (i, a) /\
+  Parser.step P (Parser.OFindSkip a) = Parser.POk Parser.VNone Q /\
+  forall j' i' a' Q', nth_error arms j' = Some (i', a') ->
+    Parser.step P (Parser.OFindSkip a') = Parser.POk Parser.VNone Q' ->
+    match_start Q a <= match_start Q' a' /\ ((j' < j)%nat -> match_start Q a < match_start Q' a').
+
+Lemma find_winner_unique P arms j i a Q j2 i2 a2 Q2 :
+  find_winner P arms j i a Q -> find_winner P arms j2 i2 a2 Q2 ->
+  j = j2 /\ i = i2 /\ a = a2 /\ Q = Q2.
+Proof.
+  intros (Hn & Hs & Hw) (Hn2 & Hs2 & Hw2).
+  destruct (Hw _ _ _ _ Hn2 Hs2) as [L1 S1]. destruct (Hw2 _ _ _ _ Hn Hs) as [L2 S2].
+  assert (j = j2).
+  { destruct (Nat.lt_trichotomy j j2) as [L|[E|L]]; [specialize (S2 L); lia | exact E | specialize (S1 L); lia]. }
+  subst j2. rewrite Hn in Hn2. inversion Hn2; subst. rewrite Hs in Hs2. inversion Hs2. auto.
+Qed.
+
+Lemma first_listed_first_occ h arms k j i a :
+  first_listed (fun a => occ h a k) arms j i a ->
+  (forall k', (k' < k)%nat -> none_listed (fun a => occ h a k') arms) -> first_occ h a k.
+Proof.
+  intros (Hn & Ho & _) Hmin. split; [exact Ho|]. intros k' Hk'.
+  apply (Hmin k' Hk' i a). eapply nth_error_In; eassumption.
+Qed.
+
+(** the arm the scan loop selects wins the chain *)
+Lemma find_selected_wins P arms k j i a : fits P ->
+  first_listed (fun a => occ (Parser.p_str P) a k) arms j i a ->
+  (forall k', (k' < k)%nat -> none_listed (fun a => occ (Parser.p_str P) a k') arms) ->
+  exists Q, find_winner P arms j i a Q /\ Parser.p_str Q = skipn (k + length a) (Parser.p_str P).
+Proof.
+  intros Hf Hfl Hmin. pose proof (first_listed_first_occ _ _ _ _ _ _ Hfl Hmin) as Hfo.
+  exists (Parser.mk_parser Parser.FromStart (Parser.p_yls P) (Parser.p_start P + Z.of_nat k + zlen a)
+            (skipn (k + length a) (Parser.p_str P))).
+  split; [|reflexivity]. split; [exact (proj1 Hfl)|]. split.
+  - apply (step_find_ok _ _ _ Hf). exists k. split; [exact Hfo | reflexivity].
+  - intros j' i' a' Q' Hn' Hs'. apply (step_find_ok _ _ _ Hf) in Hs'. destruct Hs' as (k' & Hfo' & ->).
+    unfold match_start. cbn [Parser.p_start].
+    assert (Hle : (k <= k')%nat).
+    { destruct (Nat.le_gt_cases k k') as [L|L]; [exact L|]. exfalso.
+      apply (Hmin k' L i' a'); [eapply nth_error_In; eassumption | exact (proj1 Hfo')]. }
+    split; [lia|]. intro Hj.
+    assert (k <> k').
+    { intro E. subst k'. destruct Hfl as (_ & _ & Hbefore). apply (Hbefore j' i' a' Hj Hn'). exact (proj1 Hfo'). }
+    lia.
+Qed.
+
+Lemma skipn_split {A} n (l : list A) : l = firstn n l ++ skipn n l.
+Proof. symmetry. apply firstn_skipn. Qed.
+
+(** the whole find_skip form against the chain, in one statement *)
+Lemma find_macro_chain_cases brs P :
+  fits P -> str_shape (Parser.p_str P) -> arms_shaped (arms_of brs) ->
+  (exists j i a Q, find_winner P (arms_of brs) j i a Q /\
+                   find_macro AtStart brs (abs P) = (Some i, abs Q)) \/
+  ((forall i a, In (i, a) (arms_of brs) -> exists e, Parser.step P (Parser.OFindSkip a) = Parser.PErr e) /\
+   find_macro AtStart brs (abs P) = (None, abs P)).
+Proof.
+  intros Hf Hp Ha. rewrite (find_macro_start_cut brs (abs P) Hp Ha). cbn [abs p_rem].
+  destruct (find_loop_start (arms_of brs) (Parser.p_str P)) as [[i r]|] eqn:E.
+  - left. apply find_loop_start_some in E. destruct E as (k & j & a & Hfl & -> & Hmin).
+    destruct (find_selected_wins P _ k j i a Hf Hfl Hmin) as (Q & HW & HQ).
+    exists j, i, a, Q. split; [exact HW|]. f_equal.
+    destruct HW as (_ & Hs & _). rewrite step_find in Hs.
+    destruct (find_skip_m (Parser.p_str P) a) as [r|]; [|discriminate]. inversion Hs; subst Q.
+    cbn [start_to Parser.p_str] in HQ. subst r. symmetry.
+    apply (abs_start_to P (firstn (k + length a) (Parser.p_str P))); [exact Hf | apply skipn_split].
+  - right. split; [|reflexivity]. intros i a Hin. apply step_find_err. intros k Hk.
+    pose proof (proj1 (find_loop_start_none _ _) E k i a Hin). contradiction.
+Qed.
+
+(** find_eq_chain: the branch that runs is the winner's, the parser is what the winner's
+    [Parser::find_skip] returned ... *)
+Lemma find_macro_some brs P i q :
+  fits P -> str_shape (Parser.p_str P) -> arms_shaped (arms_of brs) ->
+  (find_macro AtStart brs (abs P) = (Some i, q) <->
+   exists j a Q, find_winner P (arms_of brs) j i a Q /\ q = abs Q).
+Proof.
+  intros Hf Hp Ha.
+  destruct (find_macro_chain_cases brs P Hf Hp Ha) as [(j0 & i0 & a0 & Q0 & HW & E)|[Hall E]]; rewrite E.
+  - split.
+    + intro H; inversion H; subst. now exists j0, a0, Q0.
+    + intros (j & a & Q & HW' & ->).
+      destruct (find_winner_unique _ _ _ _ _ _ _ _ _ _ HW HW') as (_ & -> & _ & ->). reflexivity.
+  - split; [discriminate|]. intros (j & a & Q & (Hn & Hs & _) & _). exfalso.
+    apply nth_error_In in Hn. destruct (Hall i a Hn) as [e He]. congruence.
+Qed.
+
+(** ... and the default branch runs, parser unchanged, exactly when every call fails *)
+Lemma find_macro_none brs P q :
+  fits P -> str_shape (Parser.p_str P) -> arms_shaped (arms_of brs) ->
+  (find_macro AtStart brs (abs P) = (None, q) <->
+   q = abs P /\ forall i a, In (i, a) (arms_of brs) ->
+                  exists e, Parser.step P (Parser.OFindSkip a) = Parser.PErr e).
+Proof.
+  intros Hf Hp Ha.
+  destruct (find_macro_chain_cases brs P Hf Hp Ha) as [(j0 & i0 & a0 & Q0 & HW & E)|[Hall E]]; rewrite E.
+  - split; [discriminate|]. intros (_ & Hall). exfalso. destruct HW as (Hn & Hs & _).
+    apply nth_error_In in Hn. destruct (Hall i0 a0 Hn) as [e He]. congruence.
+  - split; [intro H; inversion H; auto | intros (-> & _); reflexivity].
+Qed.
